@@ -28,9 +28,16 @@ def handle_program(rnd):
     x = rnd.randint(0, 3)
     slow = ["call", "inc2", [["val", x]], {}, {}]       # two jobs: becomes ready later
     fast = ["val", x]
-    shape = rnd.choice(["siblings", "siblings3", "chained", "nested", "merged", "mixed", "solo"])
+    shape = rnd.choice(["siblings", "siblings3", "chained", "nested", "merged", "mixed", "solo", "two_states", "two_states"])
     def step(arg, hh=None):
         return ["call", "h_step", [hh or h, arg], {}, {}]
+    if shape == "two_states":
+        # two different states of one handle (both derived in creation order from immediately-ready calls) are passed on
+        # to two further calls whose readiness depends on which upstream job finishes first
+        a, b = x + 10, x + 20
+        left = ["call", "h_step", [step(["val", a]), slow], {}, {}]
+        right = ["call", "h_step", [step(["val", b]), rnd.choice([fast, ["call", "inc", [["val", x]], {}, {}]])], {}, {}]
+        return ["cont", "list", [left, right]], shape
     if shape == "siblings":
         return ["cont", "list", [step(slow), step(fast)]], shape
     if shape == "siblings3":
